@@ -1,5 +1,5 @@
 """C03 - declared lengths equal emitted bytes; back-to-back frames decode in sequence."""
-from wire_check import run_wire_property
+from wire_check import run_wire_property, stream_extra
 
 RULE = ("for every abstract frame of WireShapes.tla: Header.BodyLength and the length field on the wire equal the body bytes emitted "
         "(with and without compression), the message codec's EncodedLength equals what its encoder writes, and every read path leaves "
@@ -7,4 +7,4 @@ RULE = ("for every abstract frame of WireShapes.tla: Header.BodyLength and the l
 
 
 def run(tier):
-    return run_wire_property("C03", tier, RULE)
+    return run_wire_property("C03", tier, RULE + "; plus every complete behaviour of FrameStream.tla (sequences of up to 3 frames x write paths x read paths, and interleaved writes/reads) replayed on real byte streams from 6 kinds of source with 3 compression settings, checking the reader position against the frame boundary after every step", extra=stream_extra("C03"))
